@@ -244,7 +244,7 @@ class Prop:
                       "name": r.choice(["child", "children", "children", "table", "group"])}
                 if shared_container and r.random() < 0.5:
                     op["o"] = handlers[0]["root"]
-            if op["k"] not in ("obs", "unobs", "poison_try", "gc", "thread", "deliver") \
+            if op["k"] not in ("obs", "unobs", "poison_try", "gc", "thread", "deliver", "install_ui") \
                     and er.random() < nested_rate:
                 op["env"] = [{"at": er.choice(["h:any", "h:any", "h:h%d" % er.randrange(nh)]),
                               "nth": er.choice([1, 1, 2]), "do": "nested",
@@ -271,8 +271,14 @@ class Prop:
                 term.append({"k": "reincarnate", "h": c.randrange(nh)})
             for _ in range(c.randint(1, 4)):
                 term.append(G.gen_graph_op(c, npool))
+        # the UI toolkit (and with it the UI handler) may be initialised after the
+        # first registrations: until then "ui" handlers run where the change occurs
+        late_ui = deferred and c.random() < 0.35
+        if late_ui:
+            ops.insert(c.randrange(len(ops) + 1), {"k": "install_ui"})
         return {"prop": ID, "seed": seed,
-                "config": {"npool": npool, "handlers": handlers, "gc_mode": gc_mode},
+                "config": {"npool": npool, "handlers": handlers, "gc_mode": gc_mode,
+                           "late_ui": late_ui},
                 "ops": ops + term}
 
     # ------------------------------------------------------------------ execution
@@ -287,7 +293,7 @@ class Prop:
         self._world = world
         sched = Sched(env)
         self._sched = sched
-        sched.install()
+        sched.install(ui=not cfg.get("late_ui"))
         self._gc_thresh = gc.get_threshold()
         if cfg.get("gc_mode") == "storm":
             # cyclic GC at every opportunity (on CPython 3.12 collections happen only on
@@ -323,6 +329,9 @@ class Prop:
             k = op["k"]
             if k == "thread":
                 sched.switch(op["name"])
+            elif k == "install_ui":
+                sched.install_ui()
+                env.probe("ui-handler-installed-late")
             elif k == "deliver":
                 for _ in range(min(op["n"], 100)):
                     if not sched.deliver(op.get("i", 0)):
